@@ -185,14 +185,30 @@ fn translate_head(
             context,
         ),
         SExp::Atom(l, v) => match prim_map.get(v) {
-            None => translate_head(
-                allocator,
-                runner,
-                prim_map,
-                l.clone(),
-                Rc::new(SExp::Integer(l.clone(), number_from_u8(v))),
-                context,
-            ),
+            None => {
+                // clvmr knows an operator only by the minimal encoding of its opcode:
+                // an atom with redundant leading bytes (0x0004, 0x00) is unknown there.
+                let n = number_from_u8(v);
+                let minimal = if n == bi_zero() {
+                    Vec::new()
+                } else {
+                    u8_from_number(n.clone())
+                };
+                if *v != minimal {
+                    return Err(RunFailure::RunErr(
+                        l.clone(),
+                        format!("unknown operator {sexp}"),
+                    ));
+                }
+                translate_head(
+                    allocator,
+                    runner,
+                    prim_map,
+                    l.clone(),
+                    Rc::new(SExp::Integer(l.clone(), n)),
+                    context,
+                )
+            }
             Some(v) => Ok(Rc::new(v.with_loc(l.clone()))),
         },
         SExp::Integer(l, i) => match prim_map.get(&u8_from_number(i.clone())) {
